@@ -381,7 +381,9 @@ def build(case):
             return "H_ERR[%d]" % cid
         if k == "fac":
             args = e["fac"]["args"]
-            lines.append("def fac_%d(%s):" % (cid, ", ".join(args)))
+            sig_ = ", ".join(sorted(("**varkw" if a == "varkw" else "*varargs" if a == "varargs" else a for a in args),
+                                    key=lambda t: (t.startswith("**"), t.startswith("*"))))
+            lines.append("def fac_%d(%s):" % (cid, sig_))
             lines.append("    return H_fac(%d, dict(%s))" % (cid, ", ".join("%s=%s" % (a, a) for a in args)))
             return "fac_%d" % cid
         if k == "other":
